@@ -36,8 +36,18 @@ class BV:
         return "BV" + self.show()
 
 
+MIN_SUB = Fr(1, 2 ** 1075)     # below half the smallest f64 subnormal a result rounds to zero
+MAX_FIN = Fr(2) ** 1024
+
+
 def of_const(c):
+    """exact constant with the f64 range model: magnitudes below the subnormal range flush to zero, above the finite
+    range overflow to infinity (f32 has a narrower range; the f64 model is the optimistic one)"""
     c = Fr(c)
+    if c != 0 and abs(c) <= MIN_SUB:
+        c = Fr(0)
+    if abs(c) >= MAX_FIN:
+        return BV([PINF] if c > 0 else [NINF])
     return BV([ZERO] if c == 0 else ([POS] if c > 0 else [NEG]), ex=c)
 
 
@@ -229,6 +239,21 @@ class DomB:
     def fn(self, name, a):
         if name == "recip":
             return self.recip(a)
+        if a.ex is not None:
+            x = a.ex
+            sgn = [ZERO] if x == 0 else ([POS] if x > 0 else [NEG])
+            if name == "ln_1p" and x > -1:
+                return BV(sgn)
+            if name in ("ln", "log2", "log10") and x > 0:
+                return BV([ZERO] if x == 1 else ([POS] if x > 1 else [NEG]))
+            if name in ("asin", "atanh") and abs(x) < 1:
+                return BV(sgn)
+            if name == "acos" and abs(x) <= 1:
+                return BV([POS] if x < 1 else [ZERO])
+            if name == "acosh" and x >= 1:
+                return BV([POS] if x > 1 else [ZERO])
+            if name in ("sin", "tan", "sinh", "asinh", "atan", "tanh", "exp_m1", "cbrt") and abs(x) < 1:
+                return BV(sgn)
         out = set()
         for c in a.cls:
             out |= self._fn1(name, c)
